@@ -247,6 +247,47 @@ static void marathon_case(uint64_t idx)
     if (vh_want_sample()) { snprintf(d, sizeof(d), "{\"marathon\":\"%s\",\"backend\":\"%s\",\"calls\":%llu,\"rekeys_and_tweak_changes\":%llu,\"calls_of_64KiB_or_more\":%llu}", c->name, vh_backend_names[be], (unsigned long long)calls, (unsigned long long)rekeys, (unsigned long long)bigcalls); vh_sample(d); }
 }
 
+/* xbe, long streams: 0.5 .. 1.3 MiB are generated on one object since the last counter set (in a few calls), then the key or
+   tweak is changed in the middle of a block/batch and more data follows.  Everything the object returns is hashed and must be
+   the same on every back end: positions kept in narrow counters, or rewinds computed from them, diverge only here. */
+static void long_stream_rekey(uint64_t idx, const vh_cipher *c, vh_rng *r0)
+{
+    static uint8_t buf[1400000]; uint64_t hsh[3] = {0, 0, 0}; int rets[3] = {0, 0, 0}, be, nbe = maxbe[c->id] + 1; char pfx[128];
+    uint64_t seed = vh_rand(r0);
+    for (be = 0; be < nbe; ++be) {
+        vh_rng r; vh_handle h; uint8_t key[48], tw[32], ctr[16], tail[400]; size_t total, done = 0; int ret = 1, tweaked, what;
+        vh_rng_seed(&r, seed, 0xC8, 1);
+        memset(&h, 0, sizeof(h)); vh_set_cap(be);
+        snprintf(pfx, sizeof(pfx), "%s:%s:%s:long-stream-rekey", prop, c->name, vh_backend_names[be]); vh_set_crash_key(pfx);
+        vh_rand_bytes(&r, key, 48); vh_rand_bytes(&r, tw, 32); vh_rand_bytes(&r, ctr, 16);
+        tweaked = c->has_tkey && vh_below(&r, 2);
+        total = 524288 + 8 * c->bb + vh_below(&r, 800000);
+        if (vh_below(&r, 2)) vh_fill_msb_boundary(&r, ctr, c->bb);
+        vh_call_begin("long stream");
+        ret &= c->ctr_init(&h);
+        ret &= tweaked ? c->ctr_set_tkey(&h, key, 2 * c->bb) : c->ctr_set_key(&h, key, 16, 7);
+        if (tweaked || c->id == CIPH_MANTIS) ret &= c->ctr_set_tweak(&h, tw, c->id == CIPH_MANTIS ? 8 : c->bb);
+        ret &= c->ctr_set_counter(&h, ctr, c->bb);
+        while (done < total) { size_t n = vh_below(&r, 3) ? 1 + vh_below(&r, 300000) : 1 + vh_below(&r, 200); if (n > total - done) n = total - done; memset(buf, 0, n); ret &= c->ctr_encrypt(buf, buf, n, &h); hsh[be] = vh_hash(buf, n, hsh[be] + n); done += n; }
+        { size_t n = 1 + vh_below(&r, 8 * c->bb - 1); memset(buf, 0, n); ret &= c->ctr_encrypt(buf, buf, n, &h); hsh[be] = vh_hash(buf, n, hsh[be]); }   /* stop inside a batch */
+        what = (int)vh_below(&r, 3);
+        if (what == 0 && (tweaked || c->id == CIPH_MANTIS)) ret &= c->ctr_set_tweak(&h, tw + 3, c->id == CIPH_MANTIS ? 8 : c->bb);
+        else if (what == 1 && c->has_tkey) ret &= c->ctr_set_tkey(&h, key + 5, 2 * c->bb);
+        else ret &= c->ctr_set_key(&h, key + 9, 16, 6);
+        memset(tail, 0, sizeof(tail)); ret &= c->ctr_encrypt(tail, tail, sizeof(tail), &h); hsh[be] = vh_hash(tail, sizeof(tail), hsh[be]);
+        c->ctr_cleanup(&h);
+        vh_call_end();
+        rets[be] = ret;
+        VH_COUNT("long_stream_rekey_runs", 1); VH_MAXC("max_bytes_generated_before_a_mid_batch_rekey", total);
+    }
+    for (be = 1; be < nbe; ++be) if (hsh[be] != hsh[0] || rets[be] != rets[0]) {
+        char key_[200], d[200];
+        snprintf(key_, sizeof(key_), "%s:%s:%s:long-stream-rekey-differs-from-generic", prop, c->name, vh_backend_names[be]);
+        snprintf(d, sizeof(d), "{\"cipher\":\"%s\",\"backend\":\"%s\",\"rets\":[%d,%d],\"driver\":\"drv_ctr\",\"mode\":\"xbe\",\"case\":%llu}", c->name, vh_backend_names[be], rets[0], rets[be], (unsigned long long)idx);
+        vh_violation(key_, d, d);
+    }
+}
+
 static void one_case(uint64_t idx)
 {
     vh_rng r;
@@ -263,6 +304,7 @@ static void one_case(uint64_t idx)
         snprintf(pfx, sizeof(pfx), "%s:%s", prop, c->name);
         vh_case_begin(idx, pfx, d.p); sb_free(&d);
     }
+    if (!strcmp(vh_arg_mode, "xbe") && idx % 40 == 17) { long_stream_rekey(idx, c, &r); return; }
     if (!strcmp(vh_arg_mode, "model") && idx < nstruct) { gen_structured(&H, c, idx / CIPH_N, &r); VH_COUNT("structured_cases", 1); }
     else chist_gen(&H, c, &r, g);
     observe(&H);
